@@ -20,6 +20,12 @@ CLAIMED["C20"] = dict(
     note="Trusted: z3, the closed-form LEB128 definition in props/C20.py, the proxy engine (each path cross-checked against a concrete shim-free run). Integers beyond the bound are outside the claim.",
     technique=TECH)
 
+CLAIMED["C10"] = dict(
+    level="model_checking", design="§4 C10",
+    text="Real encode()/Relocation.apply() code executed on symbolic operands: (1) wrap_negative/inrange primitives for every value; (2) every relocation type of riscv, rvc, arm, thumb, x86_64 + generic data relocations applied with symbolic symbol address, field address (all 32/48/64-bit values) and addend: error, or the field decoded per the ISA manual designates exactly S+A(-P) and no other bit changes; (3) every instruction class with an integer operand (quick: riscv, rvc, arm, thumb; thorough: all 12 ISAs): over all pairs of operand values in +-2**40 accepted by encode(), encodings differ (no truncation/aliasing) and the operand is not rewritten.",
+    note="Trusted: z3/cvc5, ref/relocspec.py (field layouts from the ISA manuals), the proxy engine (every path cross-checked concretely). Layer 3 is spec-free (injectivity), so a wrong-but-injective field layout is C08's business. Genuine defects of the unchanged tree are listed per call site in known_findings.json (regions proven tight by the solver: a violation outside them is still reported). Not claimed: operands through the assembler text path; relocation types without a relocspec entry.",
+    technique=TECH)
+
 NOT_APPLICABLE = {
     "C04": "property is about native execution of whole gcc/ppci-compiled programs; no x86-64 semantics model is in reach and running binaries is enumeration of concrete runs, not solver-based checking",
     "C06": "dataflow property over uninterpreted instruction semantics: a checker would be tag propagation in which a solver decides nothing",
